@@ -49,6 +49,60 @@ def as1d(x):
     return np.atleast_1d(np.asarray(x, dtype=float)).ravel()
 
 
+# ---- Euler conventions (own matrices; scipy naming: lower case = extrinsic, upper case = intrinsic) -------------
+CONVS = ["ZXZ", "zyz", "ZYZ", "XYZ", "xyz"]       # besides the default "zxz"
+_AX = {"x": geo.rx, "y": geo.ry, "z": geo.rz}
+
+
+def conv_matrix(conv, ang):
+    """extrinsic s1 s2 s3 (a1, a2, a3): first about s1, then s2, then s3 (fixed axes) = R3 R2 R1;
+    intrinsic S1 S2 S3: about the moving axes = R1 R2 R3"""
+    r = [_AX[c.lower()](a) for c, a in zip(conv, ang)]
+    return r[2] @ r[1] @ r[0] if conv.islower() else r[0] @ r[1] @ r[2]
+
+
+_CQT = {}
+
+
+def conv_euler_for_code(conv, code, rng):
+    """some quarter-turn triple of the convention that gives the cube element (own matrices, brute force over 64)"""
+    if conv not in _CQT:
+        import itertools
+        tab = {}
+        for t in itertools.product(range(4), repeat=3):
+            tab.setdefault(tuple(geo.matrix_to_code(conv_matrix(conv, [90.0 * x for x in t]), 1e-6)), []).append(t)
+        _CQT[conv] = tab
+    t = rng.choice(_CQT[conv][tuple(code)])
+    return [90.0 * x + rng.choice([0.0, 0.0, 0.0, 360.0, -360.0]) for x in t]
+
+
+def measure_conv(ea, eb, conv):
+    """The entry points that take Euler arrays with a `convention` option."""
+    from cryocat import geom
+    ea = np.asarray(ea, dtype=float).reshape(-1, 3)
+    eb = np.asarray(eb, dtype=float).reshape(-1, 3)
+    A = ea[0].copy() if ea.shape[0] == 1 else ea.copy()
+    B = eb[0].copy() if eb.shape[0] == 1 else eb.copy()
+    ci = geom.cone_inplane_distance(A, B, convention=conv)
+    return {"angular_distance": as1d(geom.angular_distance(A, B, convention=conv)[0]),
+            "cone_inplane_distance.cone": as1d(ci[0]), "cone_inplane_distance.inplane": as1d(ci[1])}
+
+
+def run_l2_conv(ctx, case):
+    """case: {kind: l2_conv, conv, ea, eb, codes, expected}: the same cube pairs described in another Euler convention"""
+    obs, err = core.call_guarded(measure_conv, case["ea"], case["eb"], case["conv"])
+    classes = ["equal" if e["same"] else "cube" for e in case["expected"]]
+    if err is not None:
+        ctx.fail("call_raises", err, case, {"op": "distances", "pair": classes[0], "nan": False, "convention": case["conv"]})
+    else:
+        n0 = len(ctx.failures)
+        judge_pairs(ctx, obs, case["expected"], case, classes, keys=(["angular_distance"], ["cone_inplane_distance.cone"],
+                                                                      ["cone_inplane_distance.inplane"]))
+        for f in ctx.failures[n0:]:
+            f.signature["convention"] = case["conv"]
+    ctx.ran(case)
+
+
 # ---- L2: pairs ---------------------------------------------------------------------------------------
 def measure_pairs(ea, eb, form):
     """All five distance entry points on (batches of) pairs.  ea, eb: (n,3) Euler angles."""
@@ -88,12 +142,13 @@ IP_KEYS = ["inplane_distance", "cone_inplane_distance.inplane", "compare_rotatio
            "compare_rotations[in_plane_distance]"]
 
 
-def judge_pairs(ctx, obs, expected, case, pair_classes):
+def judge_pairs(ctx, obs, expected, case, pair_classes, keys=None):
     """expected: list of the records TLC printed (ang, cone, inplane{lo,hi}, same), one per pair of the call."""
     n = len(expected)
     ok = True
-    for keys, what in ((ANG_KEYS, "ang"), (CONE_KEYS, "cone"), (IP_KEYS, "inplane")):
-        for key in keys:
+    ka, kc, ki = keys or (ANG_KEYS, CONE_KEYS, IP_KEYS)
+    for keyset, what in ((ka, "ang"), (kc, "cone"), (ki, "inplane")):
+        for key in keyset:
             v = obs[key]
             op = key.split(".")[0].split("[")[0]
             if v.shape[0] != n:
@@ -176,7 +231,15 @@ def run_l2_normals(ctx, case):
     import pandas as pd
     from cryocat import geom
     v = np.asarray(case["vecs"], dtype=float).reshape(-1, 3) / geo.U
-    arg = v.copy() if case["form"] == "array" else pd.DataFrame(v.copy(), columns=["x", "y", "z"])
+    form = case["form"]
+    if form == "array":
+        arg = v.copy()
+    elif form == "frame":
+        arg = pd.DataFrame(v.copy(), columns=["x", "y", "z"])
+    else:
+        # the same directions stored as integers (the 1/8-unit vectors themselves): int64 / int32 arrays, integer columns
+        iv = np.asarray(case["vecs"], dtype=np.int32 if form == "int32" else np.int64).reshape(-1, 3)
+        arg = pd.DataFrame(iv.copy(), columns=["x", "y", "z"]) if form == "frame_int" else iv.copy()
     order = case.get("order", "zxz")
     np.random.seed(case["npseed"])
     if order == "zxz" and case["npseed"] % 2 == 0:
@@ -184,7 +247,7 @@ def run_l2_normals(ctx, case):
     else:
         got, err = core.call_guarded(geom.normals_to_euler_angles, arg, output_order=order)
     cls = normal_class(case["vecs"][0]) if len(case["vecs"]) == 1 else "batch"
-    sig = {"op": "normals_to_euler_angles", "normal": cls, "order": order}
+    sig = {"op": "normals_to_euler_angles", "normal": cls, "order": order, "stored": "int" if "int" in form else "float"}
     if err is not None:
         ctx.fail("call_raises", err, case, sig)
         ctx.ran(case)
@@ -198,7 +261,8 @@ def run_l2_normals(ctx, case):
         got = got[:, [0, 2, 1]]          # (phi, psi, theta) -> (phi, theta, psi)
     for k, e in enumerate(case["expected"]):
         want = np.asarray(e["num"], dtype=float) / float(e["den"])
-        sigk = {"op": "normals_to_euler_angles", "normal": normal_class(case["vecs"][k]), "order": order}
+        sigk = {"op": "normals_to_euler_angles", "normal": normal_class(case["vecs"][k]), "order": order,
+                "stored": "int" if "int" in form else "float"}
         if not finite(got[k]):
             ctx.fail("C06_EulerFromNormalHasThatZAxis", "angles %s for normal %s" % (got[k].tolist(), v[k].tolist()), case, sigk)
             continue
@@ -310,14 +374,33 @@ def gen_batch_case(rng, idx, big):
     return {"kind": "l3_batch", "id": idx, "a": [p["a"] for p in pairs], "b": [p["b"] for p in pairs]}
 
 
+def gen_conv_case(rng, idx):
+    """n pairs of orientations given as Euler arrays of another convention (intrinsic / extrinsic, other axes)"""
+    conv = rng.choice(CONVS)
+    n = rng.choice([1, 1, 2, 3, 4, 5])
+
+    def ang():
+        mid = rng.choice([rng.uniform(-180, 180), rng.uniform(-180, 180), rng.uniform(-180, 180), 0.0, 90.0, 180.0, -90.0])
+        return [rng.uniform(-180, 180), mid, rng.uniform(-180, 180)]
+    return {"kind": "l3_batch", "id": idx, "conv": conv, "a": [ang() for _ in range(n)], "b": [ang() for _ in range(n)]}
+
+
 def batch_trace(case):
     ea, eb = np.asarray(case["a"], dtype=float), np.asarray(case["b"], dtype=float)
     n = ea.shape[0]
-    ev = {"kind": "batch", "n": n, "gt": [], "zgt": [], "ang": [], "cone": [], "ip": []}
+    conv = case.get("conv")
+    ev = {"kind": "batch", "n": n, "conv": conv or "zxz", "gt": [], "zgt": [], "ang": [], "cone": [], "ip": []}
     for i in range(n):
-        ma, mb = geo.zxz_matrix(*ea[i]), geo.zxz_matrix(*eb[i])
+        ma = conv_matrix(conv, ea[i]) if conv else geo.zxz_matrix(*ea[i])
+        mb = conv_matrix(conv, eb[i]) if conv else geo.zxz_matrix(*eb[i])
         ev["gt"].append(q4(geo.rot_angle_deg(ma.T @ mb)))
         ev["zgt"].append(q4(zangle(ma, mb)))
+    if conv:
+        obs = measure_conv(ea, eb, conv)
+        ev["ang"] = [[q4(x) for x in obs["angular_distance"]]]
+        ev["cone"] = [[q4(x) for x in obs["cone_inplane_distance.cone"]]]
+        ev["ip"] = [[q4(x) for x in obs["cone_inplane_distance.inplane"]]]
+        return [ev]
     for form in ("array", "rot"):
         obs = measure_pairs(ea, eb, form)
         ev["ang"] += [[q4(x) for x in obs[k]] for k in ANG_KEYS]
@@ -425,7 +508,18 @@ def gen_normals_case(rng, idx, big):
             s = {"tiny": 1e-3, "huge": 1e3}.get(kind, rng.uniform(0.1, 10))
             v = [x * s for x in v]
         normals.append([float(x) for x in v])
-    return {"kind": "l3_normals", "id": idx, "euler": eul, "normals": normals, "npseed": rng.randrange(2 ** 31)}
+    stored = rng.choice(["float", "float", "frame", "int64", "int32", "frame_int"])
+    if "int" in stored:
+        normals = []
+        for _ in range(m):
+            while True:
+                v = [rng.randint(-12, 12) for _ in range(3)]
+                if any(v):
+                    break
+            if rng.random() < 0.2:
+                v = [0, 0, rng.choice([-3, -1, 1, 5])]
+            normals.append(v)
+    return {"kind": "l3_normals", "id": idx, "euler": eul, "normals": normals, "stored": stored, "npseed": rng.randrange(2 ** 31)}
 
 
 def normals_trace(case):
@@ -443,8 +537,16 @@ def normals_trace(case):
     out = [ev1]
     for order in ("zxz", "zzx"):
         np.random.seed(case["npseed"])
-        ang = np.asarray(geom.normals_to_euler_angles(v.copy(), output_order=order), dtype=float)
-        ev2 = {"kind": "tonormal", "order": order, "n": int(v.shape[0]), "rows": int(ang.shape[0]) if ang.ndim == 2 else -1,
+        stored = case.get("stored", "float")
+        if "int" in stored:
+            arg = np.asarray(case["normals"], dtype=np.int32 if stored == "int32" else np.int64).reshape(-1, 3)
+        else:
+            arg = v.copy()
+        if stored.startswith("frame"):
+            import pandas as pd
+            arg = pd.DataFrame(arg, columns=["x", "y", "z"])
+        ang = np.asarray(geom.normals_to_euler_angles(arg, output_order=order), dtype=float)
+        ev2 = {"kind": "tonormal", "order": order, "stored": case.get("stored", "float"), "n": int(v.shape[0]), "rows": int(ang.shape[0]) if ang.ndim == 2 else -1,
                "cols": int(ang.shape[1]) if ang.ndim == 2 else -1, "dev": []}
         if ang.ndim == 2 and ang.shape == v.shape:
             if order == "zzx":
@@ -477,10 +579,11 @@ def signature_for(case, ev, verdict):
         return {"op": FIELD_OP.get(f, "angular_distance"), "pair": cls, "nan": any(v == NAN_CODE for v in vals)}
     if ev["kind"] == "batch":
         return {"op": {"ang": "angular_distance", "cone": "cone_distance", "ip": "inplane_distance"}.get(f, "distances"),
-                "pair": "batch%d" % ev["n"] if ev["n"] <= 8 else "batch_many", "nan": NAN_CODE in sum(ev.get(f, [[]]) if f in ("ang", "cone", "ip") else [[]], [])}
+                "convention": ev.get("conv", "zxz"), "pair": "batch%d" % ev["n"] if ev["n"] <= 8 else "batch_many", "nan": NAN_CODE in sum(ev.get(f, [[]]) if f in ("ang", "cone", "ip") else [[]], [])}
     if ev["kind"] == "normals":
         return {"op": "euler_angles_to_normals", "batch": "one" if ev["n"] == 1 else "many"}
-    return {"op": "normals_to_euler_angles", "normal": "real", "order": ev.get("order", "zxz")}
+    return {"op": "normals_to_euler_angles", "normal": "real", "order": ev.get("order", "zxz"),
+            "stored": "int" if "int" in ev.get("stored", "float") else "float"}
 
 
 def run_l3(ctx, cases, name="trace"):
@@ -525,7 +628,7 @@ def spec_expected(ctx, case):
     a generated module restricts MC_RotGeom's scope to the inputs of this case."""
     k = case["kind"]
     pairs, batches, normals = "{}", "{}", "{}"
-    if k == "l2_pair":
+    if k in ("l2_pair", "l2_conv"):
         pairs = "{ " + ", ".join("<<FromCode(%s), FromCode(%s)>>" % (tla_tuple(a), tla_tuple(b)) for a, b in case["codes"]) + " }"
     elif k == "l2_batch":
         batches = "{ <<" + ", ".join("FromCode(%s)" % tla_tuple(c) for c in case["codes"]) + ">> }"
@@ -539,7 +642,7 @@ def spec_expected(ctx, case):
                   extra_modules=[path])
     key = lambda inp: json.dumps(inp, sort_keys=True)
     table = {key(t["inp"]): t["out"] for t in res.records}
-    if k == "l2_pair":
+    if k in ("l2_pair", "l2_conv"):
         exp = [table[key({"a": a, "b": b})] for a, b in case["codes"]]
     elif k == "l2_batch":
         exp = table[key({"rots": case["codes"]})]["normals"]
@@ -552,10 +655,10 @@ def spec_expected(ctx, case):
 
 def replay(ctx, case):
     k = case["kind"]
-    if k in ("l2_pair", "l2_batch", "l2_normal"):
+    if k in ("l2_pair", "l2_batch", "l2_normal", "l2_conv"):
         case = dict(case)
         case["expected"] = spec_expected(ctx, case)
-        {"l2_pair": run_l2_pairs, "l2_batch": run_l2_batch, "l2_normal": run_l2_normals}[k](ctx, case)
+        {"l2_conv": run_l2_conv, "l2_pair": run_l2_pairs, "l2_batch": run_l2_batch, "l2_normal": run_l2_normals}[k](ctx, case)
     elif k in ("l3_pairs", "l3_normals", "l3_batch"):
         run_l3(ctx, [case], name="replay")
     else:
@@ -574,6 +677,8 @@ def run(ctx):
         "projection alpha: own Euler->matrix routine; relative-rotation angle and z-axis angle of the inputs from the "
         "driver's matrices (atan2 forms); angles compared at 2e-4 degree, vectors at 1e-9 (exact layer) / 1e-6 (real)",
         "the in-plane distance is only constrained as the property words it: in [0,180], 0 for equal orientations",
+        "Euler conventions follow scipy's naming (lower case extrinsic, upper case intrinsic); the driver builds the matrices "
+        "of every convention itself",
         "output_order='zzx' of normals_to_euler_angles lists the same orientation as (phi, psi, theta)",
         "normals_to_euler_angles draws phi from numpy's global generator; the driver seeds it per call",
     ]
@@ -623,6 +728,18 @@ def run(ctx):
                                "eb": [geo.euler_for_code(t["inp"]["b"], rng) for t in sel],
                                "codes": [[t["inp"]["a"], t["inp"]["b"]] for t in sel],
                                "expected": [t["out"] for t in sel]})
+    # ... and the same cube pairs described in other Euler conventions (the `convention` option of the array entry points)
+    for conv in CONVS:
+        order = list(range(len(pairs)))
+        rng.shuffle(order)
+        step = 6
+        for k in range(0, len(order), step):
+            sel = [pairs[i] for i in order[k:k + step]]
+            run_l2_conv(ctx, {"kind": "l2_conv", "conv": conv,
+                              "ea": [conv_euler_for_code(conv, t["inp"]["a"], rng) for t in sel],
+                              "eb": [conv_euler_for_code(conv, t["inp"]["b"], rng) for t in sel],
+                              "codes": [[t["inp"]["a"], t["inp"]["b"]] for t in sel], "expected": [t["out"] for t in sel]})
+    ctx.exhaustive["L2_conventions"] = True
     # ---- L2 batches
     for t in batches:
         for r in range(ctx.pick(1, 3)):
@@ -631,7 +748,7 @@ def run(ctx):
                                "expected": t["out"]["normals"]})
     # ---- L2 normals: singly (array / DataFrame), and all of them in one call
     for t in normals:
-        for form in ("array", "frame"):
+        for form in ("array", "frame", "int64", "int32", "frame_int"):
             for order in ("zxz", "zzx"):
                 run_l2_normals(ctx, {"kind": "l2_normal", "form": form, "order": order, "vecs": [t["inp"]["v"]],
                                      "expected": [t["out"]["zaxis"]], "npseed": rng.randrange(2 ** 31)})
@@ -639,7 +756,7 @@ def run(ctx):
         order = list(range(len(normals)))
         rng.shuffle(order)
         sel = [normals[i] for i in order[:rng.randint(2, len(order))]]
-        run_l2_normals(ctx, {"kind": "l2_normal", "form": "array" if r % 2 == 0 else "frame", "order": ["zxz", "zzx"][(r // 2) % 2],
+        run_l2_normals(ctx, {"kind": "l2_normal", "form": ["array", "frame", "int64", "frame_int"][r % 4], "order": ["zxz", "zzx"][(r // 2) % 2],
                              "vecs": [t["inp"]["v"] for t in sel], "expected": [t["out"]["zaxis"] for t in sel],
                              "npseed": rng.randrange(2 ** 31)})
     ctx.exhaustive["L2_batches_and_normals"] = True
@@ -652,6 +769,7 @@ def run(ctx):
     nedge = ctx.pick(1500, 15000)
     cases += [gen_pair_case(rng, 0, family=EDGE_FAMILIES[i % len(EDGE_FAMILIES)]) for i in range(nedge)]
     cases += [gen_batch_case(rng, 0, not ctx.quick) for _ in range(ctx.pick(120, 3000))]
+    cases += [gen_conv_case(rng, 0) for _ in range(ctx.pick(250, 6000))]
     for i, c in enumerate(cases):
         c["id"] = i + 1
     cases += [gen_normals_case(rng, len(cases) + i + 1, big=(not ctx.quick) or i % 10 == 0) for i in range(nnorm)]
